@@ -475,6 +475,37 @@ def _run(ctx):
                             for a, t in U.guard_atoms(ecfg, n_)]),
              ctx.loc(ef))
 
+    # the engine the API asks: defaults registered, rules loaded, and the
+    # policy file is authoritative on every reload (oslo.policy replaces the
+    # file rules as a whole unless told `overwrite=False`; with merging, a
+    # permissive override the operator deletes stays in force until restart)
+    ei = prog.func('mistral.api.access_control._ensure_enforcer_initialization')
+    ctor = [c for c in own_nodes(ei.node) if isinstance(c, ast.Call) and
+            U.call_name(c) == 'Enforcer']
+    oki = len(ctor) == 1
+    for c in ctor:
+        for k in c.keywords:
+            if k.arg in ('overwrite', 'use_conf') and not (
+                    isinstance(k.value, ast.Constant) and
+                    k.value.value is True):
+                oki = False
+            if k.arg is None or k.arg in ('rules', 'default_rule',
+                                          'policy_file'):
+                oki = False
+        oki = oki and len(c.args) == 1
+    order = [U.call_name(c) for c in sorted(
+        (c for c in own_nodes(ei.node) if isinstance(c, ast.Call) and
+         U.call_name(c) in ('Enforcer', 'register_defaults', 'load_rules')),
+        key=lambda c: (c.lineno, c.col_offset))]
+    r9.check(oki and order == ['Enforcer', 'register_defaults',
+                               'load_rules'] and
+             U.phas(ei.node, '___.register_defaults(policies.list_rules())'),
+             ctx.construct(ei, extra='policy engine set-up'),
+             'the API policy engine is not built from the configuration with '
+             'the registered defaults and file rules that replace each other '
+             'on reload (%s): a rule removed from the policy file keeps '
+             'applying' % [ast.unparse(c) for c in ctor], ctx.loc(ei))
+
     # ---- R7 admin identity -----------------------------------------------
     r7 = ctx.rule('R7', 'admin status comes from an exact role match and '
                   'reaches the policy engine unchanged', 'GD')
